@@ -21,7 +21,7 @@ Requirements for the change:
 - Variant hint: you are variant "{n}" — if "a", pick what you consider the most natural subtle change; if "b", deliberately pick a DIFFERENT mechanism/file than the most obvious one (e.g. a less central file from the list, or a stateful/sequence-dependent effect rather than a single-value boundary); if "c" or "d", go for a less-travelled path among the relevant files: a secondary protocol / transport / codec variant, a teardown or error path, a configuration-dependent branch, or an effect that only shows after a history of several operations; if "e" or later, assume the obvious mistakes have already been tried: choose a mechanism that involves an unusual configuration option, an interaction between two features (two protocols, two sessions of different kinds, a feature flag plus a particular instant), or a rarely used API entry point.
 - It must touch only non-test .go files under pkg/ (1-15 changed lines is ideal).
 - `cd {wt} && go build ./... && go test -vet=off -count=1 ./...` must still pass with the change (run it and confirm; all packages ok).
-- Provide a demonstration: a Go test file (e.g. pkg/<x>/zz_seed_demo_test.go, placed in the worktree but NOT part of the patch) or a small main program, that FAILS with the change applied and PASSES on the unmodified tree. Run it both ways (use `git stash` / `git diff > patch; git checkout .; ...`) and confirm.
+- Provide a demonstration: a Go test file (e.g. pkg/<x>/zz_seed_demo_test.go, placed in the worktree but NOT part of the patch) or a small main program, that FAILS with the change applied and PASSES on the unmodified tree. Run it both ways (use `git diff > /tmp/your.patch; git checkout .; ...; git apply /tmp/your.patch` - do NOT use `git stash`: the stash is shared by all worktrees of this repository and other agents use it concurrently) and confirm.
 
 Deliverables in {out}/ :
 - patch.diff  : `git diff` of ONLY your change to non-test files (must apply with `git apply` at the worktree's HEAD)
